@@ -17,6 +17,7 @@
      run_ghost              run_fsm with a ghost: the time of the last SYNC -> ESTABLISHED transition since the
                             last stop (history), to which the code's own last_update is compared (tracks)      *)
 From Coq Require Import Permutation.
+From RtrV Require Gen.GeneratedFsm Rtr.FsmTie Rtr.ExpiryProofs.
 From RtrV Require Import Base.CSem Gen.Generated Rtr.RtrModel Rtr.SyncSets Rtr.ExpiryFrames Rtr.ExpirySync
   Rtr.ConvergeStutter Rtr.ExpiryProofs.
 Local Open Scope Z_scope.
@@ -129,6 +130,32 @@ Theorem C07_interrupted_reload_example :
   (pfx w22 = [] /\ last_update (sk w22) = 0 /\ req_sess (sk w22) = true /\ serial (sk w22) = 0).
 Proof. split; [apply ex_w0_Inv|]. split; [apply ex_w0_Inv|exact interrupted_reload_still_expires]. Qed.
 
+(* Tie (a) for the control skeleton of the state machine.  rtr_purge_outdated_records, rtr_wait_for_sync and ONE ITERATION of the
+   while (1) loop of rtr_fsm_start are translated from /repo on every run into an effect tree (Gen/GeneratedFsm.v, Base/Eff.v: ERet,
+   ECall f args socket-fields continuation, EUndef; C integer semantics explicit: time_t is 64-bit signed, signed overflow is EUndef;
+   calls to rtr_purge_outdated_records / rtr_wait_for_sync from the loop body are inlined).  Rtr/FsmTie.v interprets the calls by the
+   model's functions (tr_open, tr_close, rtr_change_socket_state, rtr_send_*_query, rtr_sync, rtr_receive_pdu, the two *_src_remove,
+   lrtr_get_monotonic_time = the model's clock (it cannot fail there), sleep, pthread_exit), the socket's fields written into the world
+   before each call and read back after it, and proves: the translated code IS the hand-written model, in every state.
+   Side conditions = the C types: fields in their ranges, time stamps far from the end of time_t (c_range; implied by the model's own
+   invariant Tm plus upper bounds, Tm_c_range).  RTR_SHUTDOWN: the C calls pthread_exit where fsm_step does nothing; run_fsm cannot tell
+   (FsmTie.step_shutdown, run_fsm_shutdown).  purge_is_64_bit: with last_update + expire_interval >= 2^32 the translated purge keeps the
+   data - a 32-bit sum would not (the seeded change C05-r4 breaks purge_tie). *)
+Theorem C07_purge_translated : forall fuel w, Rtr.FsmTie.purge_range (sk w) ->
+  Rtr.FsmTie.run_eff fuel (Gen.GeneratedFsm.rtr_purge_outdated_records_gen (Rtr.FsmTie.sock_store (sk w))) w =
+  Some (Rtr.FsmTie.res_const (purge_outdated w) 0).
+Proof. exact Rtr.FsmTie.purge_tie_world. Qed.
+
+Theorem C07_fsm_step_translated : forall fuel w, Rtr.FsmTie.c_range w -> st (sk w) <> c_RTR_SHUTDOWN ->
+  Rtr.FsmTie.run_eff fuel (Gen.GeneratedFsm.rtr_fsm_start__iter_gen (Rtr.FsmTie.sock_store (sk w))) w =
+  Some (Rtr.FsmTie.res_const (fsm_step fuel w) 0).
+Proof. intros fuel w HC Hn. apply Rtr.FsmTie.fsm_step_tie_world; [apply Rtr.FsmTie.c_range_step, HC|exact Hn]. Qed.
+
+Example C07_fsm_translation_examples :
+  Gen.GeneratedFsm.fsm_translator_problems = [] /\ Rtr.FsmTie.c_range Rtr.ExpiryProofs.ex_w0 /\
+  Rtr.FsmTie.run_c 6 100 Rtr.ExpiryProofs.ex_w0 = Some (run_fsm 6 100 Rtr.ExpiryProofs.ex_w0).
+Proof. split; [exact Rtr.FsmTie.no_translator_problems|]. split; [exact (proj1 Rtr.FsmTie.ex_w0_ranges)|exact Rtr.FsmTie.run_c_ex_w0]. Qed.
+
 Print Assumptions C07_initial.
 Print Assumptions C07_invariant.
 Print Assumptions C07_last_update_step.
@@ -142,3 +169,5 @@ Print Assumptions C07_stop.
 Print Assumptions C07_others.
 Print Assumptions C07_failed_sync_keeps_timestamp.
 Print Assumptions C07_interrupted_reload_example.
+Print Assumptions C07_purge_translated.
+Print Assumptions C07_fsm_step_translated.
